@@ -44,6 +44,9 @@ func main() {
 		if handled, code := checks.ReplayKV(os.Args[3]); handled {
 			os.Exit(code)
 		}
+		if handled, code := checks.ReplayLRU(os.Args[3]); handled {
+			os.Exit(code)
+		}
 		if handled, code := checks.ReplayGate(os.Args[3]); handled {
 			os.Exit(code)
 		}
